@@ -48,6 +48,7 @@ var userPool = [][2]string{
 
 func (c16) Generate(r *rand.Rand, tier string) (sim.Config, any) {
 	cfg := RandomSimConfig(r)
+	cfg.StmtYield = pick(r, []float64{0, 0, 0.02, 0.1}) // statement-level preemption in the handler / cluster packages
 	cfg.IdleLimitSec = 3600
 	p := c16Params{NServers: 1 + r.IntN(2), Users: pick(r, userPool), ColQuota: 1 + r.IntN(2), PtQuota: int64(8 + r.IntN(20)), ShardCap: int64(3 + r.IntN(6))}
 	cols := []string{"col", "data", "xyz"}
@@ -355,7 +356,7 @@ func (c16) Execute(env *Env) {
 							bad("status %d failed points %v, this tenant's own state demands %v", st, sortedKeys(got), sortedKeys(wantFailed))
 							return
 						}
-						for id := range wantFailed {
+						for id := range detRange(wantFailed) {
 							if !got[id] {
 								bad("failed points %v, expected %v", sortedKeys(got), sortedKeys(wantFailed))
 								return
@@ -384,7 +385,7 @@ func (c16) Execute(env *Env) {
 							}
 						}
 						want := 0
-						for id, d := range col.Docs {
+						for id, d := range detRange(col.Docs) {
 							n, _ := d["n"].(int64)
 							if n < int64(op.Query) {
 								continue
